@@ -62,3 +62,4 @@ func verifRandStream(i int) []byte
 func verifDependsOnExact(v any, name string) bool
 func verifBytesSym(name string, max, spare int) []byte
 func verifByteAt(b []byte, i int) byte
+func verifResultOwned(v any) bool
